@@ -259,19 +259,31 @@ pub struct BlockPlan {
     pub nonce: u128,
 }
 
+/// numbers that stand for the REAL short id of a transaction the harness holds (c20's verifier probe commits it)
+static REAL_SHORT_IDS: std::sync::Mutex<Vec<(u64, ProposalShortId)>> = std::sync::Mutex::new(Vec::new());
+pub fn register_real_short_id(n: u64, id: ProposalShortId) {
+    let mut g = REAL_SHORT_IDS.lock().unwrap();
+    if g.len() > 4096 { g.clear(); }
+    g.push((n, id));
+}
+
 pub fn short_id(n: u64) -> ProposalShortId {
+    if n >= REAL_ID_BASE {
+        if let Some((_, id)) = REAL_SHORT_IDS.lock().unwrap().iter().find(|(m, _)| *m == n) { return id.clone(); }
+    }
     let mut b = [0u8; 10];
     b[..8].copy_from_slice(&n.to_le_bytes());
     b[9] = 0x5a;
     ProposalShortId::new(b)
 }
+pub const REAL_ID_BASE: u64 = 900_000_000;
 
 pub fn short_id_num(id: &ProposalShortId) -> Option<u64> {
     let raw = id.as_slice();
     if raw[9] == 0x5a && raw[8] == 0 {
         Some(u64::from_le_bytes(raw[..8].try_into().unwrap()))
     } else {
-        None
+        REAL_SHORT_IDS.lock().unwrap().iter().rev().find(|(_, x)| x == id).map(|(m, _)| *m)
     }
 }
 
